@@ -152,7 +152,10 @@ def gen_scene(rng, idx):
             box = [rel_interval(rng, dev[a][0], dev[a][1], n[a], rels[a]) for a in range(3)]
             objs.append({"kind": kind, "box": box})
     return {"kind": "scene", "shape": n, "devices": [{"box": dev, "voxel": rng.choice([[1, 1, 1], [2, 1, 2], [3, 2, 1]])}],
-            "objects": objs, "pseed": idx}
+            "objects": objs, "pseed": idx,
+            # every other scene: the device's high-index material is dispersive (Lorentz pole), so the device also rewrites the
+            # dispersion coefficient arrays that sources are set up against
+            "dispersive": bool(idx % 2)}
 
 
 def gen_cases(ctx):
